@@ -94,6 +94,17 @@ theorem once_per_block (s s' t : State) (h : executeCommitDpos s = .ok s')
     · injection hm with hm; injection hm with hm1 hm2; subst hm1
       simp [hh]
 
+/-- The epoch (governance view) changes only through CommitDpos, BlackNode or InitConfig (the latter only on a node
+manager that was never initialised). -/
+theorem epoch_changes_only_by_commit_or_black (H : Bytes → Bytes) (s : State) (op : Op)
+    (hop : (∀ sg o, op ≠ .commit sg o) ∧ (∀ sg a pks, op ≠ .black sg a pks) ∧ (∀ m ps, op ≠ .init m ps)) :
+    (step H s op).gv = s.gv := gv_frame H s op hop
+
+/-- `InitConfig` does nothing on an initialised node manager. -/
+theorem init_only_once (H : Bytes → Bytes) (s : State) (m : Nat) (ps : List Peer) (h : s.gv.isSome = true) :
+    step H s (.init m ps) = s := by
+  simp [step, exec, plan, initConfig, h]
+
 /-- `CommitDpos` needs the operator's witness unless MaxBlockChangeView blocks have passed since the last change. -/
 theorem commit_authorised (H : Bytes → Bytes) (s : State) (sg : List Addr) (operator : Addr) (p : Plan)
     (h : plan H s (.commit sg operator) = .ok p) :
